@@ -75,8 +75,10 @@ Record gstate := mkG {
 
 Record cfg := mkCfg { c_max_retries : nat;   (* Rmcp.max_retries *)
                       c_active : bool;       (* Session.activated *)
-                      c_stale : list N }.    (* reference BMC: the datagram numbers it answers with
+                      c_stale : list N;      (* reference BMC: the datagram numbers it answers with
                                                 an unrelated (stale rq_seq) frame BEFORE the reply *)
+                      c_lose : list N }.     (* reference BMC: the datagram numbers whose reply is lost
+                                                (recvfrom raises socket.timeout) *)
 
 (* Session.increment_sequence_number:
      self.sequence_number += 1
@@ -98,6 +100,10 @@ Definition stale_frame (n h : N) (q : treq) : frame :=
   mkFrame (stale_seq h) (N.lor (q_netfn q) 1) (q_cmd q) (n + 100).
 Definition bmc_frames (c : cfg) (n h : N) (q : treq) : list frame :=
   (if is_stale c n then [stale_frame n h q] else []) ++ [bmc_reply n h q].
+(* what reaches the socket: nothing when the reply to datagram n is lost *)
+Definition is_lost (c : cfg) (n : N) : bool := existsb (N.eqb n) (c_lose c).
+Definition bmc_delivers (c : cfg) (n h : N) (q : treq) : list frame :=
+  if is_lost c n then [] else bmc_frames c n h q.
 
 (* rx_filter(header, rx_data, rq_seq=True) on the abstract frame *)
 Definition rx_match (h : N) (q : treq) (r : frame) : bool :=
@@ -162,7 +168,7 @@ Definition step_l (c : cfg) (g : gstate) (t : tid) : option (label * gstate) :=
           let s := pack_sseq c (g_sseq g) in
           Some (LSend,
                 set_thr (mkG (g_nsn g) (g_lock g) s (g_q g)
-                             (g_inbox g ++ bmc_frames c (g_nrx g) h q) (g_nrx g + 1)
+                             (g_inbox g ++ bmc_delivers c (g_nrx g) h q) (g_nrx g + 1)
                              (Sent t (t_k th) s h q :: g_wire g) (g_thr g))
                         t (set_pc th (PRecv h retry 0)))
       | PRecv h retry rr =>
@@ -248,6 +254,11 @@ Definition exch_tx (c : cfg) (t : tid) (k : nat) (s h : N) (q : treq) (n : N) : 
 (* the BMC sends at most one unrelated frame per datagram: max_retries must allow
    reading past it *)
 Definition stale_ok (c : cfg) : Prop := c_stale c = [] \/ (1 <= c_max_retries c)%nat.
+(* the BMC the exchange theorems are about: in order, no reply lost, unrelated frames only
+   within the retry budget.  (Lost replies - the socket.timeout / re-pack / re-send path - are
+   executed by the model in the correspondence runs and covered by the sequence-number
+   theorems, which need no assumption on the BMC at all.) *)
+Definition bmc_ok (c : cfg) : Prop := stale_ok c /\ c_lose c = [].
 
 Definition finished (th : thread) : bool := Nat.leb (length (t_reqs th)) (t_k th).
 Definition all_finished (g : gstate) : bool := forallb finished (g_thr g).
